@@ -46,11 +46,11 @@ RULE = ('one evaluation = one complete run of the real strategy under one '
 
 
 def bounds(tier):
-    return {'V': 8 if tier == 'quick' else 10,
-            'Vpar': 7 if tier == 'quick' else 8,
+    return {'V': 8 if tier == 'quick' else 11,
+            'Vpar': 7 if tier == 'quick' else 9,
             'S': 5 if tier == 'quick' else 6,
-            'Sreq': 4 if tier == 'quick' else 5,
-            'Vhash': 7 if tier == 'quick' else 8,
+            'Sreq': 4 if tier == 'quick' else 6,
+            'Vhash': 7 if tier == 'quick' else 9,
             'J': [1, 2] if tier == 'quick' else [1, 2, 3]}
 
 
